@@ -62,20 +62,31 @@ Definition ieval (ix : iexpr) (i : Z) : Z :=
   end%Z.
 (* a bare `x[i]`: the ComponentRef case of get_indexed_symbol, no index expression *)
 Definition is_bare (ix : iexpr) : bool := match ix with IOff 0%Z => true | _ => false end.
+(* one subscript of an array argument: the loop index, a constant (1-based), the whole slice *)
+Inductive midx := XI | XK (k : Z) | XAll.
 Inductive sref :=
 | SV (x : nat)                 (* scalar variable *)
 | SD (x : nat)                 (* der(x) *)
 | SI (x : nat) (k : Z)         (* x[k], constant 1-based subscript *)
 | SL (x : nat) (ix : iexpr)    (* x[<ix>(i)] inside a for-loop over i *)
 | SLoop                        (* the loop index as a number *)
-| SArg (j : nat).              (* formal input / output / local of a function *)
+| SArg (j : nat)               (* formal input / output / local of a function *)
+| SL2 (x : nat) (ix : iexpr) (k : Z)   (* X[<ix>(i), k] of a 2-D array inside a for-equation *)
+| SDL (x : nat) (ix : iexpr)           (* der(x[<ix>(i)]) inside a for-equation *)
+| SM (x : nat) (ri ci : midx) (nr nc : nat).
+   (* inside a function with array arguments: argument x (declared [nr, nc]; a vector is [nr, 1])
+      subscripted by the loop index, a constant or a whole slice `:`; a slice is summed:
+      A[i, k], b[i], sum(A[i, :]), sum(A[:, j]), A[k, j] *)
 Inductive sx :=
 | SNum (q : Qc)
 | SRef (r : sref)
 | SNeg (a : sx)
 | SBin (n : canode) (a b : sx)
 | SIf (c a b : sx)
-| SCall (f : nat) (a b : sx) (k : nat).     (* k-th output of the user function f *)
+| SCall (f : nat) (a b : sx) (k : nat)      (* k-th output of the user function f *)
+| SCallM (f : nat) (A b : nat) (x : sx) (k : nat).
+   (* k-th output of the user function f with ARRAY arguments: the 2-D array variable A, the
+      1-D array variable b (whole arrays) and one scalar argument x *)
 
 (* integer expressions evaluated at generation time by get_integer: literal, or an Integer
    parameter plus a literal (n, n+1, n-1) *)
@@ -94,11 +105,12 @@ Inductive meq :=
 
 (* declaration: the C10 symbol (name, order, prefixes, type; its s_empty field is ignored and
    recomputed from the dimension), dimension, attribute expressions (value,min,max,start,fixed,nominal) *)
-Record sdecl := mkDecl { d_sym : C10.sym; d_dim : option ib; d_attrs : list sx }.
+Record sdecl := mkDecl { d_sym : C10.sym; d_dim : option ib; d_dim2 : option Z; d_attrs : list sx }.
 Record smodel := mkSmodel {
   s_decls : list sdecl;
   s_ipar : nat -> Z;                                (* values of the Integer parameters *)
   s_funs : list (nat * sfun);
+  s_mfuns : list (nat * sfun);                      (* functions with array arguments (A, b, x) *)
   s_eqs : list meq;
   s_ieqs : list meq }.
 
@@ -107,14 +119,21 @@ Inductive gref :=
 | RV (x : nat) | RD (x : nat)
 | RE (x : nat) (k0 : Z)                 (* element, 0-based *)
 | RG (x : nat) (idx : list Z)           (* orig_symbol[indices - 1]: at iteration position p the p-th entry *)
-| RLoop | RArg (j : nat).
+| RLoop | RArg (j : nat)
+| RG2 (x : nat) (idx : list Z) (k0 : Z) (* X[indices - 1, k0] of a 2-D array, p-th entry at position p *)
+| RGD (x : nat) (idx : list Z)          (* der(x)[indices - 1] *)
+| RCells (x : nat) (cells : list (list (Z * Z))).
+   (* exitForStatement: orig_symbol[s.indices] handed to the mapped loop body COLUMN BY COLUMN:
+      at iteration position p the body sees the p-th column s[:, p], here the list of (row, col)
+      cells of the argument it consists of (0-based); a slice is summed *)
 Inductive gx :=
 | GNum (q : Qc)
 | GRef (r : gref)
 | GNeg (a : gx)
 | GBin (n : canode) (a b : gx)
 | GIf (c a b : gx)                      (* ca.if_else(c, a, b, True) *)
-| GCall (cm : callmode) (f : nat) (a b : gx) (k : nat).
+| GCall (cm : callmode) (f : nat) (a b : gx) (k : nat)
+| GCallM (cm : callmode) (f : nat) (A b : nat) (x : gx) (k : nat).
 Inductive gstmt :=
 | GAssign (v : nat) (e : gx)
 | GFor (mm : mapmode) (vals : list Z) (v : nat) (e : gx).
@@ -132,6 +151,7 @@ Record gmodel := mkGmodel {
   g_types : list (nat * C10.ty * list C10.kw);    (* python type / prefixes of every variable *)
   g_attrs : list (nat * list gx);       (* attribute expressions per declared variable *)
   g_funs : list (nat * gfun);
+  g_mfuns : list (nat * gfun);
   g_eqs : list geqn;
   g_ieqs : list geqn;
   g_delays : list gdelay;
@@ -139,15 +159,26 @@ Record gmodel := mkGmodel {
 
 (* ---------- evaluation environment ---------- *)
 Record env := mkEnv { e_sc : nat -> Qc; e_der : nat -> Qc; e_arr : nat -> Z -> Qc;
+                      e_darr : nat -> Z -> Qc;          (* derivatives of 1-D arrays *)
+                      e_mat : nat -> Z -> Z -> Qc;      (* 2-D arrays (0-based row, column) *)
                       e_i : Z; e_pos : nat; e_arg : nat -> Qc }.
 Definition with_ip (r : env) (i : Z) (p : nat) : env :=
-  mkEnv (e_sc r) (e_der r) (e_arr r) i p (e_arg r).
+  mkEnv (e_sc r) (e_der r) (e_arr r) (e_darr r) (e_mat r) i p (e_arg r).
 Definition upd_arg (r : env) (v : nat) (q : Qc) : env :=
-  mkEnv (e_sc r) (e_der r) (e_arr r) (e_i r) (e_pos r)
+  mkEnv (e_sc r) (e_der r) (e_arr r) (e_darr r) (e_mat r) (e_i r) (e_pos r)
         (fun j => if Nat.eqb j v then q else e_arg r j).
 Definition args_env (a b : Qc) : env :=
-  mkEnv (fun _ => 0) (fun _ => 0) (fun _ _ => 0) 0%Z 0%nat
+  mkEnv (fun _ => 0) (fun _ => 0) (fun _ _ => 0) (fun _ _ => 0) (fun _ _ _ => 0) 0%Z 0%nat
         (fun j => match j with O => a | S O => b | _ => 0 end).
+(* the local environment of a function with array arguments: argument 0 is the matrix, argument 1
+   the vector (a one-column matrix), slot 0 the scalar argument *)
+Definition args_envM (M : Z -> Z -> Qc) (v : Z -> Qc) (x : Qc) : env :=
+  mkEnv (fun _ => 0) (fun _ => 0) (fun _ _ => 0) (fun _ _ => 0)
+        (fun a r c => match a with O => M r c | _ => v r end) 0%Z 0%nat
+        (fun j => match j with O => x | _ => 0 end).
+Definition zero_env : env :=
+  mkEnv (fun _ => 0) (fun _ => 0) (fun _ _ => 0) (fun _ _ => 0) (fun _ _ _ => 0) 0%Z 0%nat (fun _ => 0).
+Definition qsum (l : list Qc) : Qc := fold_right Qcplus 0 l.
 
 Fixpoint zip_pos {A} (p : nat) (l : list A) : list (nat * A) :=
   match l with [] => [] | x :: r => (p, x) :: zip_pos (S p) r end.
@@ -167,6 +198,9 @@ Variable imapS : mapmode -> (Z -> Z) -> list Z -> list Z.
 Variable callS : callmode -> (Qc -> Qc -> nat -> option Qc) -> Qc -> Qc -> nat -> option Qc.
 Variable icallS : callmode -> (Z -> Z) -> Z -> Z.
 Variable expandS : (env -> list (option Qc)) -> env -> list (option Qc).
+(* callMS cm F A b x k    F.call([A, b, x], always_inline, never_inline)[k] with whole ARRAYS as arguments *)
+Variable callMS : callmode -> ((Z -> Z -> Qc) -> (Z -> Qc) -> Qc -> nat -> option Qc) ->
+                  (Z -> Z -> Qc) -> (Z -> Qc) -> Qc -> nat -> option Qc.
 
 (* ---------- meaning of the graph ---------- *)
 Definition g_ref (r : gref) (rho : env) : Qc :=
@@ -177,10 +211,14 @@ Definition g_ref (r : gref) (rho : env) : Qc :=
   | RG x idx => e_arr rho x (nth (e_pos rho) idx 0%Z)
   | RLoop => z2q (e_i rho)
   | RArg j => e_arg rho j
+  | RG2 x idx k0 => e_mat rho x (nth (e_pos rho) idx 0%Z) k0
+  | RGD x idx => e_darr rho x (nth (e_pos rho) idx 0%Z)
+  | RCells x cells => qsum (map (fun rc => e_mat rho x (fst rc) (snd rc)) (nth (e_pos rho) cells []))
   end.
 
 Section Eval.
 Variable callf : callmode -> nat -> Qc -> Qc -> nat -> option Qc.
+Variable callfm : callmode -> nat -> (Z -> Z -> Qc) -> (Z -> Qc) -> Qc -> nat -> option Qc.
 Fixpoint geval (e : gx) (rho : env) : option Qc :=
   match e with
   | GNum q => Some q
@@ -195,6 +233,8 @@ Fixpoint geval (e : gx) (rho : env) : option Qc :=
       end
   | GCall cm f a b k =>
       match geval a rho, geval b rho with Some x, Some y => callf cm f x y k | _, _ => None end
+  | GCallM cm f A b x k =>
+      match geval x rho with Some q => callfm cm f (e_mat rho A) (e_arr rho b) q k | None => None end
   end.
 
 (* exitForStatement + get_function: the right-hand side is mapped over the loop values with the
@@ -224,6 +264,11 @@ Definition gfun_den (g : gfun) (a b : Qc) (k : nat) : option Qc :=
   | Some rho => match nth_error (g_outs g) k with Some v => Some (e_arg rho v) | None => None end
   | None => None
   end.
+Definition gfun_denM (g : gfun) (M : Z -> Z -> Qc) (v : Z -> Qc) (x : Qc) (k : nat) : option Qc :=
+  match gexec (g_body g) (args_envM M v x) with
+  | Some rho => match nth_error (g_outs g) k with Some s => Some (e_arg rho s) | None => None end
+  | None => None
+  end.
 End Eval.
 
 Fixpoint fun_lookup {A} (l : list (nat * A)) (f : nat) : option A :=
@@ -231,30 +276,42 @@ Fixpoint fun_lookup {A} (l : list (nat * A)) (f : nat) : option A :=
 
 (* functions do not call functions (depth 1): inside a body a call is undefined *)
 Definition no_calls : callmode -> nat -> Qc -> Qc -> nat -> option Qc := fun _ _ _ _ _ => None.
+Definition no_callsM : callmode -> nat -> (Z -> Z -> Qc) -> (Z -> Qc) -> Qc -> nat -> option Qc :=
+  fun _ _ _ _ _ _ => None.
 Definition top_callf (ft : list (nat * gfun)) : callmode -> nat -> Qc -> Qc -> nat -> option Qc :=
   fun cm f x y k =>
     match fun_lookup ft f with
-    | Some g => callS cm (gfun_den no_calls g) x y k
+    | Some g => callS cm (gfun_den no_calls no_callsM g) x y k
     | None => None
     end.
+Definition top_callfm (mft : list (nat * gfun))
+  : callmode -> nat -> (Z -> Z -> Qc) -> (Z -> Qc) -> Qc -> nat -> option Qc :=
+  fun cm f M v x k =>
+    match fun_lookup mft f with
+    | Some g => callMS cm (gfun_denM no_calls no_callsM g) M v x k
+    | None => None
+    end.
+(* evaluation at model level: both function tables *)
+Definition gev (ft mft : list (nat * gfun)) : gx -> env -> option Qc :=
+  geval (top_callf ft) (top_callfm mft).
 
 (* transposition of the map result: "for each body equation, all iterations" (res[0].T, veccat) *)
 Definition transpose_flat (n : nat) (cols : list (list (option Qc))) : list (option Qc) :=
   flat_map (fun j => map (fun col => nth j col None) cols) (seq 0 n).
 
-Definition geqn_eval (ft : list (nat * gfun)) (q : geqn) (rho : env) : list (option Qc) :=
+Definition geqn_eval (ft mft : list (nat * gfun)) (q : geqn) (rho : env) : list (option Qc) :=
   match q with
-  | GEq e => [geval (top_callf ft) e rho]
+  | GEq e => [gev ft mft e rho]
   | GMap mm vals body =>
       transpose_flat (length body)
-        (mapS mm (fun i p r => map (fun c => geval (top_callf ft) c (with_ip r i p)) body) vals rho)
+        (mapS mm (fun i p r => map (fun c => gev ft mft c (with_ip r i p)) body) vals rho)
   end.
-Definition gdelay_eval (ft : list (nat * gfun)) (d : gdelay) (rho : env) : list (option Qc) :=
+Definition gdelay_eval (ft mft : list (nat * gfun)) (d : gdelay) (rho : env) : list (option Qc) :=
   match d with
-  | GDel e du => [geval (top_callf ft) e rho; geval (top_callf ft) du rho]
+  | GDel e du => [gev ft mft e rho; gev ft mft du rho]
   | GDelMap mm vals e du =>
-      concat (mapS mm (fun i p r => [geval (top_callf ft) e (with_ip r i p)]) vals rho)
-      ++ [geval (top_callf ft) du rho]
+      concat (mapS mm (fun i p r => [gev ft mft e (with_ip r i p)]) vals rho)
+      ++ [gev ft mft du rho]
   end.
 
 (* model.py:1274-1276 and 1283-1453 *)
@@ -262,14 +319,14 @@ Definition expand_mx_func (g : gmodel) (F : env -> list (option Qc)) : env -> li
   if g_expand g then expandS F else F.
 
 Definition dae_residual_function (g : gmodel) : env -> list (option Qc) :=
-  expand_mx_func g (fun rho => flat_map (fun q => geqn_eval (g_funs g) q rho) (g_eqs g)).
+  expand_mx_func g (fun rho => flat_map (fun q => geqn_eval (g_funs g) (g_mfuns g) q rho) (g_eqs g)).
 Definition initial_residual_function (g : gmodel) : env -> list (option Qc) :=
-  expand_mx_func g (fun rho => flat_map (fun q => geqn_eval (g_funs g) q rho) (g_ieqs g)).
+  expand_mx_func g (fun rho => flat_map (fun q => geqn_eval (g_funs g) (g_mfuns g) q rho) (g_ieqs g)).
 Definition variable_metadata_function (g : gmodel) : env -> list (option Qc) :=
   expand_mx_func g (fun rho =>
-    flat_map (fun va => map (fun e => geval (top_callf (g_funs g)) e rho) (snd va)) (g_attrs g)).
+    flat_map (fun va => map (fun e => gev (g_funs g) (g_mfuns g) e rho) (snd va)) (g_attrs g)).
 Definition delay_arguments_function (g : gmodel) : env -> list (option Qc) :=
-  expand_mx_func g (fun rho => flat_map (fun d => gdelay_eval (g_funs g) d rho) (g_delays g)).
+  expand_mx_func g (fun rho => flat_map (fun d => gdelay_eval (g_funs g) (g_mfuns g) d rho) (g_delays g)).
 
 (* ---------- the generator ---------- *)
 Section Gen.
@@ -303,6 +360,32 @@ Definition gen_ref (vals : option (list Z)) (r : sref) : gref :=
       end
   | SLoop => RLoop
   | SArg j => RArg j
+  | SL2 x ix k =>
+      match vals with
+      | Some vs =>
+          let idx := if is_bare ix then vs else imapS (map_mode fl) (ieval ix) vs in
+          RG2 x (map (fun j => (j - 1)%Z) idx) (k - 1)
+      | None => RG2 x [(ieval ix 0 - 1)%Z] (k - 1)
+      end
+  | SDL x ix =>
+      match vals with
+      | Some vs =>
+          let idx := if is_bare ix then vs else imapS (map_mode fl) (ieval ix) vs in
+          RGD x (map (fun j => (j - 1)%Z) idx)
+      | None => RGD x [(ieval ix 0 - 1)%Z]
+      end
+  | SM x ri ci nr nc =>
+      (* exitForStatement 625-631: indexed_symbol = orig_symbol[s.indices] (transposed so that the
+         iterations are the columns); the loop index is a bare ComponentRef, so indices = values.
+         Outside a loop there is one "iteration" (position 0) *)
+      let sel (m : midx) (n : nat) (i : Z) : list Z :=
+        match m with
+        | XI => [(i - 1)%Z]
+        | XK k => [(k - 1)%Z]
+        | XAll => map Z.of_nat (seq 0 n)
+        end in
+      RCells x (map (fun i => list_prod (sel ri nr i) (sel ci nc i))
+                    (match vals with Some vs => vs | None => [0%Z] end))
   end.
 Fixpoint gen_x (vals : option (list Z)) (e : sx) : gx :=
   match e with
@@ -312,6 +395,7 @@ Fixpoint gen_x (vals : option (list Z)) (e : sx) : gx :=
   | SBin n a b => GBin n (gen_x vals a) (gen_x vals b)
   | SIf c a b => GIf (gen_x vals c) (gen_x vals a) (gen_x vals b)
   | SCall f a b k => GCall (function_mode fl) f (gen_x vals a) (gen_x vals b) k   (* line 413 *)
+  | SCallM f A b x k => GCallM (function_mode fl) f A b (gen_x vals x) k         (* line 413, array operands *)
   end.
 Definition gen_stmt (s : sstmt) : gstmt :=
   match s with
@@ -363,12 +447,14 @@ Fixpoint c10_x (e : sx) : C10.expr :=
   match e with
   | SNum _ => C10.ELit
   | SRef (SD x) => C10.EOp true [C10.ERef x]
-  | SRef (SV x) | SRef (SI x _) | SRef (SL x _) => C10.ERef x
+  | SRef (SDL x _) => C10.EOp true [C10.ERef x]
+  | SRef (SV x) | SRef (SI x _) | SRef (SL x _) | SRef (SL2 x _ _) => C10.ERef x
   | SRef _ => C10.ELit
   | SNeg a => C10.EOp false [c10_x a]
   | SBin _ a b => C10.EOp false [c10_x a; c10_x b]
   | SIf c a b => C10.EOp false [c10_x c; c10_x a; c10_x b]
   | SCall _ a b _ => C10.EOp false [c10_x a; c10_x b]
+  | SCallM _ A b x _ => C10.EOp false [C10.ERef A; C10.ERef b; c10_x x]
   end.
 Definition c10_q (q : meq) : list C10.expr :=
   match q with
@@ -383,7 +469,8 @@ Definition c10_q (q : meq) : list C10.expr :=
 Definition decl_sym (fl : flags) (ipar : nat -> Z) (d : sdecl) : C10.sym :=
   let s := d_sym d in
   C10.mkSym (C10.s_name s) (C10.s_order s) (C10.s_pref s) (C10.s_ty s)
-    (match d_dim d with None => false | Some b => (get_integer fl ipar b <=? 0)%Z end).
+    (match d_dim d with None => false | Some b => (get_integer fl ipar b <=? 0)%Z end
+     || match d_dim2 d with None => false | Some z => (z <=? 0)%Z end).
 Definition c10_flat (fl : flags) (m : smodel) : C10.flat :=
   C10.mkFlat (map (decl_sym fl (s_ipar m)) (s_decls m))
              (flat_map c10_q (s_eqs m ++ s_ieqs m) ++ flat_map (fun d => map c10_x (d_attrs d)) (s_decls m)).
@@ -400,6 +487,7 @@ Definition gen (fl : flags) (m : smodel) : gmodel :=
            (map (fun s => (C10.s_name s, C10.s_ty s, C10.s_pref s)) (C10.sorted_syms fc))
            (map (fun d => (C10.s_name (d_sym d), map (gen_x fl None) (d_attrs d))) (s_decls m))
            (map (fun nf => (fst nf, gen_fun fl (s_ipar m) (snd nf))) (s_funs m))
+           (map (fun nf => (fst nf, gen_fun fl (s_ipar m) (snd nf))) (s_mfuns m))
            (fst eqs) (fst ieqs) (snd eqs ++ snd ieqs)
            false.                                   (* model.py:122 `_expand_mx_func = lambda x: x` *)
 
@@ -412,7 +500,8 @@ Variable P_eliminable : gmodel -> gmodel.              (* model.py:736-914 *)
 Variable P_aliases : bool -> gmodel -> gmodel.         (* model.py:957-1207; the bool is the test of line 1078 *)
 
 Definition set_expand (g : gmodel) : gmodel :=
-  mkGmodel (g_lists g) (g_delay_states g) (g_types g) (g_attrs g) (g_funs g) (g_eqs g) (g_ieqs g) (g_delays g) true.
+  mkGmodel (g_lists g) (g_delay_states g) (g_types g) (g_attrs g) (g_funs g) (g_mfuns g) (g_eqs g) (g_ieqs g)
+           (g_delays g) true.
 
 Definition simplify_once (fl : flags) (o : other) (g : gmodel) : res gmodel :=
   let g1 := if o_expand_vectors o && expand_mx fl                        (* 475 *)
@@ -452,6 +541,9 @@ Definition imapR : mapmode -> (Z -> Z) -> list Z -> list Z := fun _ f vals => ma
 Definition callR : callmode -> (Qc -> Qc -> nat -> option Qc) -> Qc -> Qc -> nat -> option Qc :=
   fun _ F a b k => F a b k.
 Definition icallR : callmode -> (Z -> Z) -> Z -> Z := fun _ F n => F n.
+Definition callMR : callmode -> ((Z -> Z -> Qc) -> (Z -> Qc) -> Qc -> nat -> option Qc) ->
+                    (Z -> Z -> Qc) -> (Z -> Qc) -> Qc -> nat -> option Qc :=
+  fun _ F M v x k => F M v x k.
 Definition expandR : (env -> list (option Qc)) -> env -> list (option Qc) := fun F => F.
 Definition idP : gmodel -> gmodel := fun g => g.
 Definition compileR (fl : flags) (o : other) (m : smodel) : res gmodel :=
@@ -550,17 +642,57 @@ Definition sites_ok (found : list row) : bool :=
    Some (lists, number of delay states, lengths of the dae / initial residuals and of the delay
    argument list) or None when it raised *)
 Definition len_fn (F : env -> list (option Qc)) : nat :=
-  length (F (mkEnv (fun _ => 0) (fun _ => 0) (fun _ _ => 0) 0%Z 0%nat (fun _ => 0))).
+  length (F zero_env).
 Definition observation := option (C10.obs * nat * (nat * nat * nat)).
 Definition check_obs (m : smodel) (fo : flags * observation) : bool :=
   match compileR (fst fo) plain m, snd fo with
   | Ok g, Some (lists, nd, (n_dae, n_init, n_del)) =>
       C10.obs_eqb (g_lists g) lists && Nat.eqb (length (g_delay_states g)) nd &&
-      Nat.eqb (len_fn (dae_residual_function mapR callR expandR g)) n_dae &&
-      Nat.eqb (len_fn (initial_residual_function mapR callR expandR g)) n_init &&
-      Nat.eqb (len_fn (delay_arguments_function mapR callR expandR g)) n_del
+      Nat.eqb (len_fn (dae_residual_function mapR callR expandR callMR g)) n_dae &&
+      Nat.eqb (len_fn (initial_residual_function mapR callR expandR callMR g)) n_init &&
+      Nat.eqb (len_fn (delay_arguments_function mapR callR expandR callMR g)) n_del
   | Err _, None => true
   | _, _ => false
   end.
 Definition case := (smodel * list (flags * observation))%type.
 Definition check_case (c : case) : bool := forallb (check_obs (fst c)) (snd c).
+
+(* ---------- value-level correspondence for the array-function stream (vlib/c12.py) ---------- *)
+(* The models of that stream use +, -, *, comparisons and dyadic constants only, so the binary64
+   residuals of the real code are EXACT at dyadic points and are compared with the model's
+   rational residuals by equality, under each of the 8 flag triples. *)
+Record vpoint := mkVpoint {
+  vp_sc : list (nat * Qc);                      (* scalars (time is variable 999) *)
+  vp_arr : list (nat * list Qc);                (* 1-D arrays *)
+  vp_darr : list (nat * list Qc);               (* their derivatives *)
+  vp_mat : list (nat * (nat * list Qc)) }.      (* 2-D arrays: number of rows, entries column-major *)
+Fixpoint nlookup {A} (d : A) (l : list (nat * A)) (x : nat) : A :=
+  match l with [] => d | (y, v) :: r => if Nat.eqb x y then v else nlookup d r x end.
+Definition znth (l : list Qc) (k : Z) : Qc :=
+  match k with Zneg _ => 0 | _ => nth (Z.to_nat k) l 0 end.
+Definition env_of (p : vpoint) : env :=
+  mkEnv (nlookup 0 (vp_sc p)) (fun _ => 0)
+        (fun x k => znth (nlookup [] (vp_arr p) x) k)
+        (fun x k => znth (nlookup [] (vp_darr p) x) k)
+        (fun x r c => let m := nlookup (0%nat, []) (vp_mat p) x in
+                      match r, c with
+                      | Zneg _, _ | _, Zneg _ => 0
+                      | _, _ => znth (snd m) (c * Z.of_nat (fst m) + r)
+                      end)
+        0%Z 0%nat (fun _ => 0).
+Fixpoint qlist_eqb (a : list (option Qc)) (b : list Qc) : bool :=
+  match a, b with
+  | [], [] => true
+  | Some x :: a', y :: b' => qeqb x y && qlist_eqb a' b'
+  | _, _ => false
+  end.
+Definition vcase := (smodel * vpoint * list (flags * (list Qc * list Qc)))%type.
+Definition check_vobs (m : smodel) (p : vpoint) (fo : flags * (list Qc * list Qc)) : bool :=
+  match compileR (fst fo) plain m with
+  | Ok g =>
+      qlist_eqb (dae_residual_function mapR callR expandR callMR g (env_of p)) (fst (snd fo)) &&
+      qlist_eqb (initial_residual_function mapR callR expandR callMR g (env_of p)) (snd (snd fo))
+  | Err _ => false
+  end.
+Definition check_case_val (c : vcase) : bool :=
+  match c with (m, p, obs) => forallb (check_vobs m p) obs end.
